@@ -233,7 +233,9 @@ func (ctrl *QController[Input, Output]) Reconcile(ctx context.Context, logger *z
 }
 
 func (ctrl *QController[Input, Output]) reconcileRunning(ctx context.Context, logger *zap.Logger, r controller.QRuntime, in Input, mappedOut Output) error {
-	if !in.Metadata().Finalizers().Has(ctrl.Name()) && in.Metadata().Phase() == resource.PhaseRunning {
+	// the finalizer should be on the input before the output is created, even if the input is already
+	// tearing down (and the teardown is ignored due to the controller options)
+	if !in.Metadata().Finalizers().Has(ctrl.Name()) {
 		if err := r.AddFinalizer(ctx, in.Metadata(), ctrl.Name()); err != nil {
 			return fmt.Errorf("error adding input finalizer: %w", err)
 		}
